@@ -52,7 +52,7 @@ CHECKS = {
             'DESIGN.md §4 C03'),
     'C04': ('fault_enumeration',
             'complete enumeration of a fault matrix (name-source pairs, reserved names, next/context misuse) on fixed base shapes + Hypothesis-varied bases',
-            'Each cell of the fault matrix (about 400 cells x provider with/without function; reserved names also as keyword-only parameters; render_error functions requiring context) is injected into 3 fixed valid '
+            'Each cell of the fault matrix (about 400 cells x provider with/without function; reserved names also as keyword-only parameters; render_error functions requiring context; a function object first bound validly in the render role and then declared where context is misuse) is injected into 3 fixed valid '
             'configurations (complete) and into generated valid configurations (sampled); construction must fail (NameError '
             'for conflicts / reserved names) while the un-faulted control constructs and serves.',
             'the matrix is complete only for the listed source kinds and placements; same-kind resource overlaps are not asserted',
@@ -80,7 +80,7 @@ CHECKS = {
             'Histories of requests over routes of every outcome kind interleaved with stats reads and resets are compared, after '
             'every read/reset, with a model counter keyed by (pattern, status or exception name); a second machine drives the '
             'sample store with adds far beyond capacity, resizes and reseeds and checks capacity bound, exact total count, '
-            'membership and never-raises after every step.',
+            'membership and never-raises after every step. The application under test lists its one middleware object also on a Route and an embedded application, and embeds an application with a StatsMiddleware and stats mount of its own (reads and resets through either mount).',
             'stats report read through the public JSON endpoint; reset request may be accounted to either epoch',
             'DESIGN.md §4 C19'),
     'C20': ('exploration',
@@ -96,7 +96,7 @@ CHECKS = {
             'and JSONP inside a real Application: render_basic must answer 200, label serialized JSON / HTML documents / other '
             'text as stated with the bytes unchanged, serialize containers to JSON that parses back to the normalised value or, '
             'for tabular shapes when HTML is requested, to a table containing every cell; JSON renderers must emit JSON that '
-            'round-trips for JSON-native data and degrade unknown objects to repr in dev mode.',
+            'round-trips for JSON-native data and degrade unknown objects to repr in dev mode. History parts on the long-lived renderer objects: a structure whose render stopped half-way, equal-but-different values (True / 1 / 1.0 ...) in every order, hook objects whose state changes between requests.',
             'look-alike JSON text and late <html> markers may be labelled either way; non-tabular shapes are not sent down the HTML path (O10)',
             'DESIGN.md §4 C17'),
     'C16': ('exploration',
@@ -104,7 +104,7 @@ CHECKS = {
             'Histories of set/delete/clear/read requests by two clients, clock advances around the expiry, replays of any issued '
             'cookie and 12 tampering operators are run against a server with SignedCookieMiddleware; for the exact cookie string '
             'sent the ledger decides what may be presented (that entry\'s data if intact and unexpired, otherwise an empty cookie) '
-            'and the response must be a normal 200; a second campaign mutates a valid cookie value structurally and freely.',
+            'and the response must be a normal 200; a second campaign mutates a valid cookie value structurally and freely. Complete parts: key x value round trip; server key kind (ASCII, non-Latin-1 text, bytes) x slightly different foreign keys.',
             'clock is patched from outside into the two modules that read it; lenient base64 and the whole-second expiry window allow two outcomes in narrow, stated cases',
             'DESIGN.md §4 C16'),
     'C15': ('exploration',
@@ -150,7 +150,7 @@ CHECKS = {
             'handler / render factory, inherit_slashes and rebind_render per embedding) are built nested, as a user would, and '
             'flat, from a flattening computed by the harness (merge rule, serving-application-wins resources, slash inheritance, '
             'renderer rule, outer error handling); status, body, Location and the middleware/endpoint trace must agree for every '
-            'catalogue request under every prefix and outside.',
+            'catalogue request under every prefix and outside. An application may be mounted more than once (generated, and a complete 256-tree family on the render-factory rule).',
             'both sides execute clastic; a factory strictly between a route\'s own application and the outermost one is not combined with factory-argument renders',
             'DESIGN.md §4 C10'),
     'C11': ('exploration',
